@@ -7,6 +7,10 @@ Two tables of the crate are only correct because of *who* fills them:
                  `ite_helper` (splits on the first essential variable of its operands), `cond_with_alloc` and
                  `smooth_helper` (keep an existing node's variable over transformed children of that node).  A new
                  caller — a clause compiled as a hand-built chain, say — has to bring its own ordering argument.
+  SDD nodes      `unique_bdd` / `unique_or` / `canonicalize` intern the element list they are handed.  That primes live
+                 under the left and subs under the right child of the node's vtree position is established by the
+                 callers: the four `and_*` cases (by the vtree case analysis of `and`) and `condition` (which only
+                 removes variables).
   apply / ite    `app_cache_*` is keyed by the two operands of a conjunction and `ite_cache_*` by a standard triple;
   caches         the keys do not name the operation, so each table can serve exactly one: `and`, resp. `ite`.
                  A second operation filed "next to the conjunctions, under the same kind of key" returns the
@@ -26,6 +30,15 @@ TABLES = [
      {"var": "children are the constants", "ite_helper": "splits on first_essential of its operands",
       "cond_with_alloc": "keeps a node's variable over the conditioned children of that node",
       "smooth_helper": "labels by level, children one level down", "get_or_insert": "the interning function itself"}, 4),
+    ("sdd-node", ("unique_bdd", "canonicalize", "unique_or"), lambda k: "SddBuilder" in k or "sdd::builder" in k or "sdd::compression" in k or "sdd::semantic" in k,
+     {"and_indep": "operands on the two sides of their lca: the prime left, the sub right",
+      "and_sub_desc": "keeps the node's primes, conjoins its subs with a descendant of the right child",
+      "and_prime_desc": "conjoins the primes with a descendant of the left child and keeps the partition exhaustive",
+      "and_cartesian": "products of the primes and of the subs of two nodes of one vtree node",
+      "condition": "restriction introduces no variable",
+      "unique_or": "the binary special case of the node it was asked for",
+      "canonicalize": "trimming/compression of the node it was asked for",
+      "unique_bdd": "the interning function itself"}, 6),
     ("sdd-apply-cache", ("app_cache_insert", "app_cache_get"), lambda k: "SddBuilder" in k,
      {"and": "the conjunction the key is made of"}, 2),
     ("sdd-ite-cache", ("ite_cache_insert", "ite_cache_get"), lambda k: "SddBuilder" in k,
@@ -106,6 +119,10 @@ def run(prog):
                                 {"bdd-node": "`%s` hands a node to the BDD unique table, but it is none of the operations that establish "
                                              "the variable order of what they build (%s): nothing places the children's variables after "
                                              "the node's own in the builder's order",
+                                 "sdd-node": "`%s` builds an SDD decision node, but it is none of the operations that establish on which side "
+                                             "of the vtree node the primes and the subs live (%s): the constructors intern what they are "
+                                             "given, so a sub that mentions a left-hand variable (or a prime a right-hand one) yields a node "
+                                             "that is not normalised for its vtree node — a second node for a function that already has one",
                                  "sdd-apply-cache": "`%s` uses the apply cache, which is keyed by the operands of a conjunction and can hold "
                                                     "only conjunctions (%s): another operation filed under such a key is returned as the "
                                                     "conjunction of the same operands, and the other way round",
